@@ -21,7 +21,7 @@ theorem r_progress (s : St) (hK : KInv s) (hS : SInv s) (hd : s.once = .done) :
   | reading => simp [step, hr, f7]
   | respLookup q p ae =>
     right; right; left
-    simp only [step, hr]; split <;> simp
+    simp only [step, hr]; split <;> (try split) <;> simp
   | respDecode c q p ae => simp [step, hr]
   | respDeliver c q p ae =>
     right; right; right; right; left
